@@ -4,7 +4,7 @@
   helper lemmas: VC2/Proofs/SerdesComplete.lean.  The tie of bitstream/vc2.py to the framework is
   the API lint and the byte-level round trip of harness/props/c06.py.
 -/
-import VC2.Proofs.SerdesComplete
+import VC2.Proofs.SerdesTree
 namespace VC2.Props.C06
 open VC2 VC2.Model.Serdes VC2.Proofs.Serdes
 
@@ -50,19 +50,55 @@ theorem reserialised_output_deserialises_equal (prog : List Stmt) (d : Dict) (bi
     simpa [deserialise] using r
   · cases h
 
-/-- the FULL statement (not proved here): for tree-shaped programs and all seven primitive kinds,
-    including the exp-Golomb codes.  What is missing: canonicity of the exp-Golomb reader (it is
-    checked exhaustively over all bit strings up to 14 bits by the correspondence) and the lifting of
-    `deserialise_then_serialise_fields` from field runs to nested programs. -/
-def FullStatement : Prop :=
-  ∀ (prog : List Stmt) (bits : List Bool) (d : Dict) (rest : List Bool),
-    deserialise bitCodec prog bits = some (d, rest) →
-    ∃ used, serialise bitCodec prog d = some (used, d) ∧ bits = used ++ rest
+/-- **every code of the bit layer is canonical**, including the interleaved exp-Golomb codes of
+    `read_uint` / `read_sint`: whatever bits are read, writing the value read gives back exactly
+    those bits -/
+theorem all_codes_canonical : ∀ k, CompleteAt bitCodec k := by
+  intro k
+  cases k with
+  | bool => exact fixed_width_codes_canonical.1
+  | nbits n => exact fixed_width_codes_canonical.2.1 n
+  | uintLit n => exact fixed_width_codes_canonical.2.2.1 n
+  | bitarray n => exact fixed_width_codes_canonical.2.2.2.1 n
+  | bytes n => exact fixed_width_codes_canonical.2.2.2.2 n
+  | uint => exact bitCodec_complete_uint
+  | sint => exact bitCodec_complete_sint
+
+/-- **C06 on the framework model**: for every description program (nested sub-descriptions, lists
+    of values and of sub-descriptions, bounded blocks with their trailing unused bits, byte alignment,
+    computed values) and every bit string, if the deserialiser parses `bits` into the description `d`
+    and stops in front of `rest`, then serialising `d` with the same program succeeds, uses `d` up
+    (`verify_complete`), and writes exactly the bits that were consumed -/
+theorem deserialise_then_serialise (prog : List Stmt) (bits : List Bool) (d : Dict) (rest : List Bool)
+    (h : deserialise bitCodec prog bits = some (d, rest)) :
+    ∃ used, serialise bitCodec prog d = some (used, d) ∧ bits = used ++ rest := by
+  unfold deserialise at h
+  obtain ⟨new, used, hn, hb, _, hs⟩ := desBody_ser bitCodec all_codes_canonical prog 0 [] bits d rest h
+  simp only [List.nil_append] at hn
+  subst hn
+  have := hs [] (by intro k _; rfl)
+  simp only [List.append_nil, List.nil_append] at this
+  exact ⟨used, by simp [serialise, this], hb⟩
+
+/-- … and the two halves together: the re-serialised bits deserialise to the same description -/
+theorem round_trip_is_stable (prog : List Stmt) (bits : List Bool) (d : Dict)
+    (h : deserialise bitCodec prog bits = some (d, [])) :
+    ∃ out, serialise bitCodec prog d = some (out, d) ∧ out = bits ∧
+      deserialise bitCodec prog out = some (d, []) := by
+  obtain ⟨used, hs, hb⟩ := deserialise_then_serialise prog bits d [] h
+  refine ⟨used, hs, by simpa using hb.symm, ?_⟩
+  exact reserialised_output_deserialises_equal prog d used d hs
 
 /-! ### non-vacuity -/
 example : bitCodec.dec (.uintLit 1) [true, false, true, true, false, false, true, false, true, true]
     = some (.int 178, [true, true]) := by decide +kernel
 example : (desPrims bitCodec [.bool, .nbits 3, .bitarray 2] [true, true, false, true, false, true, true]).map (·.2)
     = some [true] := by decide +kernel
+-- a nested program with exp-Golomb fields, a bounded block with two unused bits and byte alignment
+def prog1 : List Stmt := [.prim "n" .uint, .block "unused" 6 [.prim "a" .sint], .align "al", .sub "s" [.prim "b" (.nbits 2)]]
+def bits1 : List Bool := [false, true, true,  false, false, true, true,  true, false,  false, false, false, false, false, false, false,  true, false, true]
+example : (deserialise bitCodec prog1 bits1).map (·.2) = some [true] := by decide +kernel
+example : (deserialise bitCodec prog1 bits1).bind (fun r => (serialise bitCodec prog1 r.1).map (·.1)) = some (bits1.take 18) := by
+  decide +kernel
 
 end VC2.Props.C06
